@@ -76,3 +76,25 @@ Definition read4_of_walk (m : rmode) (w : walk) : qres (Exts4 * N) :=
   end.
 
 Definition is_qok {A} (q : qres A) : bool := match q with QOk _ => true | _ => false end.
+
+(* ---- erasure to the read programs of C16 (IoFault/Model.v) ---- *)
+Definition qmap {A B} (f : A -> B) (q : qres A) : qres B :=
+  match q with
+  | QOk a => QOk (f a)
+  | QIo e => QIo e
+  | QLen e => QLen e
+  | QContent c => QContent c
+  | QUnderflow => QUnderflow
+  | QBad => QBad
+  | QFuel => QFuel
+  end.
+
+(* which positions of the struct are filled, as C16's `slots` *)
+Definition slots_of (e : Exts6) : slots :=
+  mk_slots (is_some (hop_by_hop_options e)) (is_some (destination_options e)) (is_some (routing e))
+           (match routing e with Some r => is_some (rt_final_destination_options r) | None => false end)
+           (is_some (fragment e)) (is_some (auth e)).
+
+(* the summary the program x6_read returns: [next protocol number; mask of filled positions] *)
+Definition summary6 (r : Exts6 * N) : list N := [snd r; slots_mask (slots_of (fst r))].
+Definition summary4 (r : Exts4 * N) : list N := [snd r; if is_some (auth4 (fst r)) then 1 else 0].
